@@ -856,11 +856,21 @@ func (base *Type) mixin(derived *Type) {
 		derived.fractionDigits = base.fractionDigits
 	}
 
-	// merge bits
+	// a restricted bits type lists the bits it keeps, positions come from the base type
 	if derived.bits == nil {
 		derived.bits = base.bits
-	} else if base.bits != nil {
-		derived.bits = append(derived.bits, base.bits...)
+	} else {
+		for _, e := range derived.bits {
+			if e.posSet {
+				continue
+			}
+			for _, b := range base.bits {
+				if b.ident == e.ident {
+					e.Position, e.posSet = b.Position, b.posSet
+					break
+				}
+			}
+		}
 	}
 
 	derived.format = base.format
@@ -1214,6 +1224,7 @@ type Bit struct {
 	desc       string
 	ref        string
 	Position   int
+	posSet     bool // position stated explicitly or already assigned (0 is a legal position)
 	extensions []*Extension
 }
 
